@@ -205,6 +205,16 @@ class FnRef:
         return 'FnRef(%s)' % self.path
 
 
+class CtorRef:
+    """Tuple-variant / tuple-struct constructor used as a function value."""
+    __slots__ = ('ty', 'variant', 'idx')
+
+    def __init__(self, ty, variant, idx):
+        self.ty = ty
+        self.variant = variant
+        self.idx = idx
+
+
 class PyFn:
     """A callable supplied by the harness (stands for an arbitrary user closure)."""
     __slots__ = ('f', 'name')
@@ -428,7 +438,7 @@ STOP = _Stop()
 
 def deep_copy(v):
     """Semantics of MIR `copy` for aggregates: duplicate the aggregate shell, not what refs point to."""
-    if isinstance(v, (Int, FP, bool, Ref, SliceRef, StrRef, FnRef, PyFn, Opaque)) or v is None:
+    if isinstance(v, (Int, FP, bool, Ref, SliceRef, StrRef, FnRef, PyFn, Opaque, CtorRef)) or v is None:
         return v
     if isinstance(v, z3.ExprRef):
         return v
